@@ -515,3 +515,156 @@ Proof.
 Qed.
 
 End VmUserView.
+
+(* ------------------------------------------------------------------ *)
+(* every SetProperty a run executes is the association-list update     *)
+(* ------------------------------------------------------------------ *)
+Section RunSetProperty.
+Variable F : fops.
+Variable bld : build.
+Variable P : program.
+
+(* at a state whose tables satisfy the invariant, SetProperty with a key of the domain replaces the value of
+   the entry with that key in place, or appends the entry at the end *)
+Definition set_property_is_al_set (x : state) : Prop :=
+  forall reenter ip0 l a key v t,
+    opcode_at P ip0 = 33%N -> stack_ok x -> stack_of x = l ++ [v; VObj a; key] ->
+    hget (st_heap x) a = Some (OTable t) -> vkey F (st_heap x) key ->
+    exists t' k,
+      step F bld P reenter ip0 x = SNext (ip0 + 1) (set_stack (set_table x a t') k) /\
+      stack_is (cap x) k l /\
+      twf (veq0 F (st_heap x)) (vkey F (st_heap x)) t' /\
+      tabs t' = al_set (veq0 F (st_heap x)) key v (tabs t).
+
+Lemma wf_set_property_is_al_set x : tables_wf F (st_heap x) -> set_property_is_al_set x.
+Proof.
+  intros W reenter ip0 l a key v t Hop Hok Hst Ha Dk.
+  exact (step_set_property F bld P reenter ip0 x l a key v t Hop Hok Hst Ha (W a t Ha) Dk).
+Qed.
+
+Theorem run_set_property_in_order : forall budget s,
+  tables_wf F (st_heap s) -> fst (run_k F bld P budget s) <> OAbort AUnmodelled ->
+  Forall set_property_is_al_set (run_states F bld P budget s).
+Proof.
+  intros budget s W HU. destruct (run_tables_wf F bld P budget s W HU) as (_ & _ & R).
+  eapply Forall_impl; [|exact R]. intros x (_ & Wx). apply wf_set_property_is_al_set. exact Wx.
+Qed.
+End RunSetProperty.
+
+(* ------------------------------------------------------------------ *)
+(* NaN keys (outside the key domain): what the table code does          *)
+(* ------------------------------------------------------------------ *)
+(* A real key r that is not == to itself (f_cmp r r <> Some Eq: NaN) matches no stored key, itself included:
+   CaoLangTable::insert finds nothing through get_mut and adds a new row to the map part and to the key vector
+   EVERY time; no read finds such a row; iteration (keys filtered by presence in the map) skips it while
+   len (= length of the key vector) counts it; pop takes the key from the key vector but leaves the row in the
+   map part.  These hold for every table (no invariant needed). *)
+Section NanKeys.
+Variable F : fops.
+Variable h : heap.
+Variable r : N.
+Hypothesis Hnan : f_cmp F r r <> Some Eq.
+
+Lemma keq_nan_probe k : keq (veq0 F h) k (VReal r) = Some false.
+Proof.
+  destruct k as [|z|x|a]; cbn [keq]; rewrite ?veq0_unfold; generalize 23; intros fu; cbn [veq]; try reflexivity.
+  destruct (N.eqb_spec x r) as [->|Hne]; [|reflexivity].
+  destruct (f_cmp F r r) as [[| |]|]; try reflexivity. congruence.
+Qed.
+
+Lemma keq_nan_stored k : vkey F h k -> keq (veq0 F h) (VReal r) k = Some false.
+Proof.
+  intros Dk. destruct k as [|z|x|a]; cbn [keq]; rewrite ?veq0_unfold; generalize 23; intros fu; cbn [veq];
+    try reflexivity.
+  destruct (N.eqb_spec r x) as [->|Hne]; [|reflexivity]. cbn [vkey] in Dk. contradiction.
+Qed.
+
+Lemma map_find_nan m : map_find (veq0 F h) (VReal r) m = Some None.
+Proof.
+  induction m as [|[k v] m IH]; cbn [map_find]; [reflexivity|]. rewrite keq_nan_probe, IH. reflexivity.
+Qed.
+
+Theorem nan_key_insert t v :
+  tinsert (veq0 F h) t (VReal r) v = Some (mkTable (tmap t ++ [(VReal r, v)]) (tkeys t ++ [VReal r])).
+Proof. unfold tinsert. rewrite map_find_nan. reflexivity. Qed.
+
+Theorem nan_key_get t : tget (veq0 F h) t (VReal r) = Some None.
+Proof. unfold tget. rewrite map_find_nan. reflexivity. Qed.
+
+Theorem nan_key_pop t ks : tkeys t = ks ++ [VReal r] ->
+  tpop (veq0 F h) t = Some (mkTable (tmap t) ks, VNil).
+Proof.
+  intros E. unfold tpop. rewrite E, rev_app_distr. cbn [rev app]. rewrite map_find_nan, removelast_last.
+  reflexivity.
+Qed.
+
+Lemma map_find_app_nan k m v : vkey F h k ->
+  map_find (veq0 F h) k (m ++ [(VReal r, v)]) = map_find (veq0 F h) k m.
+Proof.
+  intros Dk. induction m as [|[k' v'] m IH]; cbn [app map_find].
+  - rewrite (keq_nan_stored k Dk). reflexivity.
+  - rewrite IH. reflexivity.
+Qed.
+
+Lemma titer_go_app_nan m v : forall ks, Forall (vkey F h) ks ->
+  titer_go (veq0 F h) (m ++ [(VReal r, v)]) (ks ++ [VReal r]) = titer_go (veq0 F h) m ks.
+Proof.
+  induction ks as [|k ks IH]; intros HD; cbn [app titer_go].
+  - rewrite map_find_nan. reflexivity.
+  - inversion HD as [|? ? Dk Dks]; subst. rewrite (map_find_app_nan k m v Dk), (IH Dks). reflexivity.
+Qed.
+
+(* on a table that satisfies the invariant: after the insert the row is invisible to iteration, but counted *)
+Theorem nan_key_row_invisible t v : twf (veq0 F h) (vkey F h) t ->
+  let t' := mkTable (tmap t ++ [(VReal r, v)]) (tkeys t ++ [VReal r]) in
+  titer (veq0 F h) t' = Some (tabs t) /\ length (tkeys t') = S (length (tabs t)) /\
+  ~ twf (veq0 F h) (vkey F h) t'.
+Proof.
+  intros W. cbv zeta. assert (W' := W). destruct W' as (Ha & Hd & Hn). split; [|split].
+  - unfold titer. cbn [tmap tkeys]. rewrite (titer_go_app_nan (tmap t) v (tkeys t) Hd).
+    exact (@titer_spec (veq0 F h) (vkey F h) (veq0_total F h) (veq0_refl F h) t W).
+  - cbn [tkeys]. rewrite app_length. cbn [length]. unfold tabs. rewrite <- Ha, map_length. lia.
+  - intros (_ & Hd' & _). cbn [tkeys] in Hd'. apply Forall_app in Hd'. destruct Hd' as (_ & Hd').
+    inversion Hd' as [|? ? Dk _]; subst. cbn [vkey] in Dk. contradiction.
+Qed.
+End NanKeys.
+
+(* the instruction: SetProperty with a NaN key on ANY table appends the row *)
+Theorem step_set_property_nan F bld P reenter : forall ip0 s l a r v t,
+  opcode_at P ip0 = 33%N -> stack_ok s -> stack_of s = l ++ [v; VObj a; VReal r] ->
+  hget (st_heap s) a = Some (OTable t) -> f_cmp F r r <> Some Eq ->
+  exists k,
+    step F bld P reenter ip0 s =
+      SNext (ip0 + 1) (set_stack (set_table s a (mkTable (tmap t ++ [(VReal r, v)]) (tkeys t ++ [VReal r]))) k) /\
+    stack_is (cap s) k l.
+Proof.
+  intros ip0 s l a r v t Hop Hok Hst Ha Hnan. step_opc Hop. unfold i_33. cbv zeta.
+  pose proof (stack_is_self _ Hok) as K0. rewrite Hst in K0.
+  rewrite (speek_k _ _ _ _ 0 K0), (speek_k _ _ _ _ 1 K0), (speek_k _ _ _ _ 2 K0) by (cbn [length]; lia).
+  cbn [length Nat.sub nth]. change (st_heap (spop_n s 3)) with (st_heap s).
+  cbn [get_table]. rewrite Ha. rewrite (nan_key_insert F (st_heap s) r Hnan t v).
+  exists (st_stack (spop_n s 3)). split; [reflexivity|].
+  exact (@spop_n_k s _ l [v; VObj a; VReal r] K0).
+Qed.
+
+Lemma no_key_check_fails_at_iff F bld P d ip s :
+  no_key_check_fails_at F bld P d ip s <-> forall x, run_at_k F bld P d ip s <> RStop AUnmodelled x.
+Proof.
+  unfold no_key_check_fails_at, rU. destruct (run_at_k F bld P d ip s) as [s'|e ip' s'|a s']; split; intros H;
+    try exact I; try (intros x; discriminate).
+  - intros x E. inversion E; subst. apply H. reflexivity.
+  - intros ->. apply (H s'). reflexivity.
+Qed.
+
+(* the nested-run statement with the hypothesis spelled out *)
+Theorem run_at_tables_wf_nested F bld P : forall mi d ip s,
+  tables_wf F (st_heap s) -> (forall x, run_at_k F bld P (S d) ip s <> RStop AUnmodelled x) ->
+  hext (st_heap s) (st_heap (rres_state (run_at F bld P false mi (S d) ip s))) /\
+  tables_wf F (st_heap (rres_state (run_at F bld P false mi (S d) ip s))) /\
+  Forall (fun x => hext (st_heap s) (st_heap x) /\ tables_wf F (st_heap x)) (run_at_states F bld P mi d ip s) /\
+  last (run_at_states F bld P mi d ip s) s = rres_state (run_at F bld P false mi (S d) ip s).
+Proof.
+  intros mi d ip s W HU. apply no_key_check_fails_at_iff in HU.
+  destruct (run_at_tables_wf F bld P mi d ip s W HU) as (A & B & C).
+  split; [exact A|]. split; [exact B|]. split; [exact C|]. apply run_at_states_last.
+Qed.
